@@ -1,40 +1,121 @@
-(* C15 — proofs, part 6: histories.  The foreign invariant is carried through every history of applies
-   (with any failures), invalidations, out-of-band edits and restarts; for the four API calls its
-   preservation (which needs the reference-count recursion) is a hypothesis here. *)
+(* C15 — proofs, part 11: histories.  The Table invariant holds after every history of API calls (under the
+   API discipline [op_ok]), applies with arbitrary injected failures and racing edits, timer invalidations,
+   out-of-band edits, panics and restarts; hence a forced re-read followed by a successful Apply converges. *)
 From Coq Require Import String List NArith ZArith Arith Bool Lia.
-From Verif.C15 Require Import Model Spec Proofs ProofsForeign.
+From Verif.C15 Require Import Model Spec Proofs ProofsForeign ProofsConv ProofsConv2 ProofsLoad ProofsApply ProofsRc ProofsApi.
 Import ListNotations.
 
 Definition final (cf : config) (dall : bool) (s : mstate) (ops : list op) : mstate :=
   fold_left (fun s o => fst (step cf dall s o)) ops s.
 
-Definition api_keeps (cf : config) (o : op) : Prop :=
-  forall t, finv cf t ->
-    match o with
-    | OpUpdate c ch => finv cf (update_chain (cf_fix cf) t c ch)
-    | OpRemove c => finv cf (remove_chain t c)
-    | OpInsert c rs => finv cf (insert_or_append_rules t c rs)
-    | OpAppend c rs => finv cf (append_rules t c rs)
-    | _ => True
-    end.
+(* the kernel's own chains are not Felix-owned names *)
+Definition cfg_ok (cf : config) : Prop := forall c, In c (cf_kchains cf) -> owned cf c = false.
 
-Lemma step_finv : forall cf dall s o, api_keeps cf o -> finv cf (m_table s) -> finv cf (m_table (fst (step cf dall s o))).
+Lemma hinv_same_wanted : forall cf t t',
+  hinv cf t -> winv cf t' -> t_chains t' = t_chains t -> t_ins t' = t_ins t -> t_app t' = t_app t -> hinv cf t'.
+Proof. intros cf t t' [W C I A] W' E1 E2 E3. constructor; auto; rewrite ?E1, ?E2, ?E3; auto. Qed.
+
+Lemma load_hinv : forall cf t k, hinv cf t -> hinv cf (load cf t k).
 Proof.
-  intros cf dall s o Hapi HI. unfold step.
-  destruct o as [c ch|c|c rs|c rs| |es| |fs].
-  - destruct (m_dead s); simpl; auto; try apply (Hapi _ HI).
-  - destruct (m_dead s); simpl; auto; try apply (Hapi _ HI).
-  - destruct (m_dead s); simpl; auto; try apply (Hapi _ HI).
-  - destruct (m_dead s); simpl; auto; try apply (Hapi _ HI).
-  - destruct (m_dead s); simpl; auto; try (apply invalidate_finv; auto).
-  - simpl. auto.
-  - simpl. apply new_table_finv.
-  - destruct (m_dead s); simpl; auto; try (apply apply_foreign_untouched; auto).
+  intros cf t k H. pose proof (load_loaded cf t k) as Ld.
+  eapply hinv_same_wanted; eauto; try apply Ld. apply load_winv. apply H.
 Qed.
 
-Theorem history_finv : forall cf dall ops s,
-  Forall (api_keeps cf) ops -> finv cf (m_table s) -> finv cf (m_table (final cf dall s ops)).
+Lemma commit_hinv : forall cf t, hinv cf t -> hinv cf (commit cf t).
+Proof. intros cf t H. eapply hinv_same_wanted; eauto. apply commit_winv. apply H. Qed.
+
+Lemma apply_loop_hinv : forall cf dall attempts fs t k inputs,
+  hinv cf t -> hinv cf (ao_table (apply_loop cf dall attempts fs t k inputs)).
 Proof.
-  induction ops as [|o ops IH]; simpl; intros s HF HI; auto.
-  inversion HF; subst. apply IH; auto. apply step_finv; auto.
+  induction attempts as [|a IH]; intros fs t k inputs H. simpl; auto.
+  cbn [apply_loop].
+  set (sv := if t_insync t then (true, f_saves fs) else try_saves 4 (f_saves fs)).
+  destruct (fst sv); cbn [negb]; [|simpl; auto].
+  set (t1 := if t_insync t then t else load cf t k).
+  assert (H1 : hinv cf t1). { unfold t1. destruct (t_insync t); auto. apply load_hinv; auto. }
+  destruct (apply_cmds cf t1) as [cs|]; [|apply IH; auto].
+  destruct cs as [|cm cs]. simpl. apply commit_hinv; auto.
+  destruct (if rf_fail _ then None else exec dall _ (cm :: cs)).
+  - simpl. apply commit_hinv; auto.
+  - apply IH. apply invalidate_hinv; auto.
+Qed.
+
+Lemma rules_of_const_nil : forall (l : list string) c, rules_of (map (fun c0 : string => (c0, @nil rule)) l) c = [].
+Proof. intros. unfold rules_of. induction l; simpl; auto. destruct (String.eqb c a); auto. Qed.
+
+Lemma new_table_hinv : forall cf, cfg_ok cf -> hinv cf (new_table cf).
+Proof.
+  intros cf Hk. constructor.
+  - constructor.
+    + apply new_table_finv.
+    + simpl. constructor.
+    + simpl. apply NoDup_nodup_s.
+    + simpl. intros c Hc. apply Hk. apply (proj1 (In_nodup_s c (cf_kchains cf))). exact Hc.
+    + intros c Ho _. unfold desired. simpl. destruct (referenced (new_table cf) c); reflexivity.
+    + intros c Ho _ _. simpl. rewrite rules_of_const_nil. auto.
+  - intros c ch r d Hg. simpl in Hg. discriminate.
+  - intros c r d Hr. simpl in Hr. rewrite rules_of_const_nil in Hr. contradiction.
+  - intros c r d Hr. simpl in Hr. rewrite rules_of_const_nil in Hr. contradiction.
+Qed.
+
+Lemma step_hinv : forall cf dall s o,
+  cfg_ok cf -> op_ok cf o -> hinv cf (m_table s) -> hinv cf (m_table (fst (step cf dall s o))).
+Proof.
+  intros cf dall s o Hk Hok HI. unfold step.
+  destruct o as [c ch|c|c rs|c rs| |es| |fs]; simpl in Hok.
+  - destruct (m_dead s); simpl; auto. destruct Hok. apply update_chain_hinv; auto.
+  - destruct (m_dead s); simpl; auto. apply remove_chain_hinv; auto.
+  - destruct (m_dead s); simpl; auto. destruct Hok as [H1 [H2 H3]]. apply insert_hinv; auto.
+  - destruct (m_dead s); simpl; auto. destruct Hok as [H1 [H2 H3]]. apply append_hinv; auto.
+  - destruct (m_dead s); simpl; auto. apply invalidate_hinv; auto.
+  - simpl. auto.
+  - simpl. apply new_table_hinv; auto.
+  - destruct (m_dead s); simpl; auto. apply apply_loop_hinv; auto.
+Qed.
+
+Theorem history_hinv : forall cf dall ops s,
+  cfg_ok cf -> Forall (op_ok cf) ops -> hinv cf (m_table s) -> hinv cf (m_table (final cf dall s ops)).
+Proof.
+  induction ops as [|o ops IH]; simpl; intros s Hk HF HI; auto.
+  inversion HF; subst. apply IH; auto. apply step_hinv; auto.
+Qed.
+
+Lemma apply_eq : forall cf dall fs t k, apply cf dall fs t k = apply_loop cf dall 11 fs t k [].
+Proof. reflexivity. Qed.
+
+(* Any history, then the refresh timer fires and Apply() succeeds: every chain is at its target. *)
+Theorem history_converges : forall cf dall k0 ops fs,
+  cf_nft cf = false -> cfg_ok cf -> Forall (op_ok cf) ops ->
+  let s := final cf dall (init cf k0) ops in
+  let t := invalidate (m_table s) in
+  no_racing fs -> noforge cf t (m_kernel s) ->
+  let r := apply cf dall fs t (m_kernel s) in
+  ao_result r = Success -> forall c, get c (ao_kernel r) = tgt cf t (m_kernel s) c.
+Proof.
+  intros cf dall k0 ops fs Hn Hk HF s t Hr NF r Hres c.
+  assert (H : hinv cf (m_table s)). { apply history_hinv; auto. simpl. apply new_table_hinv; auto. }
+  assert (W : winv cf t). { apply invalidate_winv. apply H. }
+  subst r. rewrite apply_eq in *.
+  pose proof (apply_loop_converges cf dall 11 fs t (m_kernel s) [] Hn W eq_refl Hr NF) as P.
+  cbv zeta in P. destruct P as [_ C]. exact (C Hres c).
+Qed.
+
+(* ... and on the way, whatever happens, nothing foreign is touched (c15_foreign_untouched applies to every
+   Apply of the history, because the history invariant contains finv). *)
+Theorem history_finv : forall cf dall k0 ops,
+  cfg_ok cf -> Forall (op_ok cf) ops -> finv cf (m_table (final cf dall (init cf k0) ops)).
+Proof.
+  intros. assert (H' : hinv cf (m_table (final cf dall (init cf k0) ops))).
+  { apply history_hinv; auto. simpl. apply new_table_hinv; auto. }
+  apply H'.
+Qed.
+
+Theorem apply_converges : forall cf dall fs t k,
+  cf_nft cf = false -> winv cf t -> t_insync t = false -> no_racing fs -> noforge cf t k ->
+  ao_result (apply cf dall fs t k) = Success ->
+  forall c, get c (ao_kernel (apply cf dall fs t k)) = tgt cf t k c.
+Proof.
+  intros cf dall fs t k Hn W Hs Hr NF Hres c. rewrite apply_eq in *.
+  pose proof (apply_loop_converges cf dall 11 fs t k [] Hn W Hs Hr NF) as P.
+  cbv zeta in P. destruct P as [_ C]. exact (C Hres c).
 Qed.
